@@ -52,19 +52,24 @@ impl Parameters {
         }
 
         Ok(Parameters {
-            a1: params["a1"].as_f64().ok_or_else(|| ParameterError::MissingField("a1".into()))?,
-            a2: params["a2"].as_f64().ok_or_else(|| ParameterError::MissingField("a2".into()))?,
-            b: params["b"].as_f64().ok_or_else(|| ParameterError::MissingField("b".into()))?,
-            c1: params["c1"].as_f64().ok_or_else(|| ParameterError::MissingField("c1".into()))?,
-            c2: params["c2"].as_f64().ok_or_else(|| ParameterError::MissingField("c2".into()))?,
-            c3: params["c3"].as_f64().ok_or_else(|| ParameterError::MissingField("c3".into()))?,
-            c4: params["c4"].as_f64().ok_or_else(|| ParameterError::MissingField("c4".into()))?,
+            a1: Self::read_number(&params["a1"]).ok_or_else(|| ParameterError::MissingField("a1".into()))?,
+            a2: Self::read_number(&params["a2"]).ok_or_else(|| ParameterError::MissingField("a2".into()))?,
+            b: Self::read_number(&params["b"]).ok_or_else(|| ParameterError::MissingField("b".into()))?,
+            c1: Self::read_number(&params["c1"]).ok_or_else(|| ParameterError::MissingField("c1".into()))?,
+            c2: Self::read_number(&params["c2"]).ok_or_else(|| ParameterError::MissingField("c2".into()))?,
+            c3: Self::read_number(&params["c3"]).ok_or_else(|| ParameterError::MissingField("c3".into()))?,
+            c4: Self::read_number(&params["c4"]).ok_or_else(|| ParameterError::MissingField("c4".into()))?,
             dof: dof,
             offsets: Self::read_offsets(&doc["opw_kinematics_joint_offsets"])?,
             sign_corrections: sign_corrections,
         })
     }
 
+
+    /// A length may be written as a real (0.15) or as an integer literal (0).
+    fn read_number(value: &Yaml) -> Option<f64> {
+        value.as_f64().or_else(|| value.as_i64().map(|i| i as f64))
+    }
 
     fn read_sign_corrections(doc: &Yaml) -> Result<[i8; 6], ParameterError> {
         // Store the temporary vector in a variable for longer lifetime
